@@ -94,7 +94,8 @@ def extract(env, kind, which, it, o, n):
 def run_walk(env, kind, which, n, policy):
     K = env.kinds[kind]
     b = K.method({"p": "p_canonization", "n": "n_canonization", "npn": "npn_canonization"}[which])
-    it = env.interp(max_steps=20000000)
+    # a straight walk takes 60-150 interpreter steps per group element; far more means the paths are splitting
+    it = env.interp(max_steps=1000 * group_order(n, which) + 100000, max_paths=2048)
     it.call_hooks = (cmp_kernel_hook(env.facts),)
     it.cmp_policy = policy
     it.cmp_log = []
@@ -473,8 +474,141 @@ def step_kernels(chk, rule="C04.S"):
                 chk.add(rule, key, v, d, where=where_of(cb))
 
 
+def _apply_concrete(n, f, perm, mask):
+    """the table of g(y) = f(x) xor mask[n], x[perm[i]] = y[i] xor mask[i], on concrete integers"""
+    g = 0
+    for y in range(1 << n):
+        x = 0
+        for i in range(n):
+            x |= (((y >> i) & 1) ^ ((mask >> i) & 1)) << perm[i]
+        g |= (((f >> x) & 1) ^ ((mask >> n) & 1)) << y
+    return g
+
+
+CANON_METHOD = {"p": "p_canonization", "n": "n_canonization", "npn": "npn_canonization"}
+
+
+def canon_plans(tier):
+    plans = []
+    for which in ("p", "n", "npn"):
+        for n in (0, 1, 2, 3):
+            if which == "npn" and n == 3 and tier == "quick":
+                plans.append((which, n, (0, 1, 2, 4, 6, 7)))   # 64 of the 256 functions; all of them in the thorough tier
+            else:
+                plans.append((which, n, tuple(range(1 << n))))
+    plans += [("p", 4, (1, 2, 4, 6, 8, 9, 12, 15)), ("n", 4, (0, 3, 5, 6, 9, 10, 12, 15)), ("n", 4, (1, 2, 4, 7, 8, 11, 13, 14)),
+              ("n", 7, (2, 64, 65, 127)), ("n", 7, (0, 63, 66, 126))]
+    if tier == "thorough":
+        plans += [("npn", 4, (1, 2, 4, 7, 8, 14)), ("p", 5, (1, 2, 4, 8, 16, 31)), ("n", 8, (3, 64, 130, 255))]
+    return plans
+
+
+_canon_eval_cache = {}
+
+
+def canon_eval(env, kind, which, n, window):
+    """the public canonization method in window mode on a table whose bits `window` are symbolic (0 elsewhere):
+    -> {choice index r: ('value', table int, perm or None, mask or None) | ('panic', msg)}  (every choice exactly once)"""
+    from ..harness import Space
+    ck = (id(env.facts), kind, which, n, window)
+    if ck in _canon_eval_cache:
+        return _canon_eval_cache[ck]
+    K = env.kinds[kind]
+    b = K.method(CANON_METHOD[which])
+    names = ["a[%d]" % p_ for p_ in window]
+    space = Space(names)
+    it = env.interp(max_paths=20000)
+    it.max_steps = 400000000
+    it.prune = True
+    it.cmp_split = True
+    it.split_all = True
+    it.memo_pure = True
+    it.space = space
+    st = State()
+    words = [W(64, bits=[B.atom("a[%d]" % (w_ * 64 + p_)) if (w_ * 64 + p_) in window else ZERO for p_ in range(64)]) for w_ in range(table_words(n))]
+    pl = K.place(st, K.mk(st, n, words))
+    with space:
+        outs = it.call_body(b, [pl], st, K.env(n))
+    res = {}
+    for o in outs:
+        m_ = space.pc_mask(o.pc)
+        if m_ is None:
+            raise Undecided("path condition with top")
+        if not m_:
+            continue
+        if o.kind == "return":
+            tab, perm, mask = extract(env, kind, which, it, o, n)
+        while m_:
+            low = m_ & -m_
+            r_ = low.bit_length() - 1
+            m_ ^= low
+            if r_ in res:
+                raise Undecided("two paths enabled for one table")
+            if o.kind != "return":
+                res[r_] = ("panic", o.info.get("msg"))
+                continue
+            asg = {B.ATOMS.get(nm): (r_ >> j) & 1 for j, nm in enumerate(names)}
+            got = 0
+            for k_, bt in enumerate(tab):
+                if bt is None:
+                    raise Undecided("result bit with top")
+                got |= B.eval_bit(bt, asg) << k_
+            res[r_] = ("value", got, perm, mask)
+    if len(res) != 1 << len(window):
+        raise Undecided("paths cover %d of %d tables" % (len(res), 1 << len(window)))
+    _canon_eval_cache[ck] = res
+    return res
+
+
+def canon_windows(chk, prop):
+    """C04.X / C05.X: the public canonization methods in window mode (all paths, exact conditions) on tables with at
+    most 8 symbolic bits: every function of n <= 3 variables, windows of 8 table bits at n = 4, and 4 table bits of
+    a two-block table (n = 7, N group).  The summary is evaluated on every choice of the bits and compared with the
+    definition computed by brute force over the group: the returned table is the smallest image of f (C04), the returned
+    (perm, mask) is in range and maps f to the returned table by the statement's formula (C05).  This is independent of
+    how the walk is organised (comparison helpers, skipped rounds, ...)."""
+    facts = F.load("dbg")
+    env = Env(facts)
+    rule = prop + ".X"
+    for kind in ("dyn", "static"):
+        K = env.kinds[kind]
+        for which, n, window in canon_plans(chk.tier):
+            b = K.method(CANON_METHOD[which])
+            key = "%s::%s_canonization n=%d, table bits %s symbolic" % (K.adt, which, n, "all" if len(window) == 1 << n else list(window))
+            try:
+                res = canon_eval(env, kind, which, n, window)
+                perms = list(itertools.permutations(range(n))) if which in ("p", "npn") else [tuple(range(n))]
+                masks = list(range(1 << (n + 1))) if which in ("n", "npn") else [0]
+                v, d = PROVED, ""
+                for r_ in range(1 << len(window)):
+                    f = sum(((r_ >> j) & 1) << p_ for j, p_ in enumerate(window))
+                    x = res[r_]
+                    if x[0] == "panic":
+                        v, d = REFUTED, "panics (%s) for the table %#x" % (x[1], f)
+                        break
+                    _, got, perm, mask = x
+                    if prop == "C04":
+                        best = min(_apply_concrete(n, f, pm, mk) for pm in perms for mk in masks)
+                        if got != best:
+                            v, d = REFUTED, "for the table %#x the representative returned is %#x, the smallest table in its %s orbit is %#x" % (f, got, which.upper(), best)
+                            break
+                    else:
+                        pm = perm if perm is not None else tuple(range(n))
+                        mk = mask if mask is not None else 0
+                        if sorted(pm) != list(range(n)) or mk >> (n + 1):
+                            v, d = REFUTED, "for the table %#x the certificate perm=%s mask=%#x is out of range" % (f, list(pm), mk)
+                            break
+                        if _apply_concrete(n, f, pm, mk) != got:
+                            v, d = REFUTED, "for the table %#x the certificate perm=%s mask=%#x yields %#x, not the returned table %#x" % (f, list(pm), mk, _apply_concrete(n, f, pm, mk), got)
+                            break
+            except Undecided as e:
+                v, d = UNDECIDED, e.cause
+            chk.add(rule, key, v, d, where=where_of(b))
+
+
 def run(chk):
     analyse(chk, "C04")
+    canon_windows(chk, "C04")
     generated(chk)
     step_kernels(chk)
     # C04.T: constant sequences are closed cycles (table predicates, E5)
